@@ -46,6 +46,11 @@ def gen_cases(chk):
     c2 = "c:7:0:%s:%s:0:0,0,0,1e,28:1:6:%s" % (dbits(2.0), dbits(1e-3), dbits(200.0))
     cases = ["mem szMode=SZ_BEST_SPEED %s/m:0/d:0" % c1,          # metadata freed as the examples do, then a decompression (was a use-after-free)
              "mem szMode=SZ_BEST_SPEED %s/d:0/%s/d:1" % (c1, c2)]  # integer raw fallback (was a leak)
+    # metadata of short integer streams that still compress (only 64-bit elements make a stream shorter than the float layout's
+    # offsets that the query used to read for every type); the other types ride along
+    for ty, ln in ((8, 15), (9, 15), (8, 13), (6, 20), (5, 40), (2, 80)):
+        for dk in (0, 2):
+            cases.append("mem szMode=SZ_BEST_SPEED;quantization_intervals=256 C:%x:0,0,0,0,%x:%d:%x:%s/m:0/d:0" % (ty, ln, dk, 0x3dc5 + ty, dbits(200.0)))
     n = 300 if thorough else 60
     for i in range(n):
         cfg = rng.choice(CFGS)
@@ -72,6 +77,8 @@ def parse(out):
     for t in d.get("ops", "").split("|"):
         if t:
             f = t[1:].split(",")
+            if len(f) < 4:
+                continue           # output cut short by a crash
             ops.append((t[0], int(f[0], 16), int(f[1], 16), int(f[2], 16), int(f[3])))
     return d, ops
 
@@ -91,7 +98,7 @@ def run(chk):
     ao = lib.run_cases(asan, cases, timeout=3000, env={"ASAN_OPTIONS": "detect_leaks=0:abort_on_error=0:allocator_may_return_null=1:detect_stack_use_after_return=1"})
     nfail = nbad = 0
     # a third pass under valgrind memcheck (it sees overruns that stay inside ASan's redzone-free zones, e.g. into a neighbouring live block)
-    sub = cases if chk.tier == "thorough" else cases[:2] + [c for i, c in enumerate(cases[2:]) if i % 2 == 1][:24]
+    sub = cases if chk.tier == "thorough" else cases[:6] + [c for i, c in enumerate(cases[14:]) if i % 2 == 1][:24]
     vdir = lib.scratch("szv-c10-")
     wrap, vlog = os.path.join(vdir, "vg.sh"), os.path.join(vdir, "vg.log")
     with open(wrap, "w") as f:
